@@ -240,7 +240,8 @@ Section Step.
           then Next [mkS (nx - ia i) (h s) (handlers s) (captured s) (pending s) (exc s)]
           else Stuck RJumpOutOfRange
         | OpJumpFinally =>
-          (* peek(0); return_ip = ip; pop; pop_exc_handler().expect; truncate; ip = finally_ip *)
+          (* peek(0); return_ip = ip; pop; pop_exc_handler().expect; close_upvalues(height); truncate;
+             ip = finally_ip   (close_upvalues since the fix of class jumpfinally_open_upvalue) *)
           if h s =? 0 then Stuck RStackUnderflow else
           match handlers s with
           | [] => Stuck RNoHandler
@@ -249,7 +250,8 @@ Section Step.
             | Some 57 =>
               if negb (hheight hd <=? h s - 1) then Stuck RHandlerAboveStack
               else if in_code (finally_pc hd)
-              then Next [mkS (finally_pc hd) (hheight hd) tl (captured s) (Some nx) (exc s)]
+              then Next [mkS (finally_pc hd) (hheight hd) tl
+                             (filter (fun c => c <? hheight hd) (captured s)) (Some nx) (exc s)]
               else Stuck RJumpOutOfRange
             | _ => Stuck RJumpFinallyNoReturn
             end
